@@ -310,13 +310,15 @@ def normalize(prg: Iterable[AST]) -> list[AST]:
      - unpooling
     """
     new_prg: list[AST] = []
+    # unpool first: the steps below copy terms (into tuples, into several comparisons),
+    # a copied pool would be expanded independently of the original
+    for stm in prg:
+        new_prg.extend(stm.unpool())
+    prg, new_prg = new_prg, []
     prg = replace_old_aggregates(prg)
     prg = remove_unecessary_bounds(prg)
     for stm in prg:
         new_prg.append(expand_comparisons(stm))
-    prg, new_prg = new_prg, []
-    for stm in prg:
-        new_prg.extend(stm.unpool())
 
     return new_prg
 
